@@ -22,6 +22,8 @@ def run_one(pid, tier, repo_root, seed):
     try:
         repo = Repo(repo_root)
         chk = Check(pid, tier, repo_root, level=getattr(mod, "LEVEL", "other"), seed=seed)
+        for n in sorted(set(repo.prenorm_notes)):
+            chk.note("pre-normalisation: " + n)
         try:
             mod.run(chk, repo)
         except AnalysisError as e:
